@@ -30,11 +30,8 @@ M = [
      "map(xmlchar::char_except1(\"<&\\\"\"), model::AttributeValue::from),", "map(xmlchar::char_except1(\"&\\\"\"), model::AttributeValue::from),", "R01-1"),
     ("C02", "comment-allows-double-dash", "parser/src/lib.rs",
      "recognize(many0(tuple((opt(tag(\"-\")), xmlchar::char_except1(\"-\"))))),", "recognize(many0(tuple((opt(tag(\"-\")), xmlchar::char_except1(\"\"))))),", "R01-1"),
-    ("C02", "entity-lookup-lenient", "info/src/lib.rs",
-     "                            let entity = context.entity(v)?;\n                            let entity =\n                                XmlUnexpandedEntityReference::node(entity, element_id, context);",
-     "                            let entity = context.entity(v).or_else(|_| context.entity(\"amp\"))?;\n                            let entity =\n                                XmlUnexpandedEntityReference::node(entity, element_id, context);", None),
     ("C02", "etag-not-compared", "parser/src/lib.rs",
-     "verify(tuple((stag, content, etag)), |(s, _, e)| s.name == *e),", "verify(tuple((stag, content, etag)), |(s, _, e)| s.name == *e || true),", None),
+     "verify(tuple((stag, content, etag)), |(s, _, e)| s.name == *e),", "verify(tuple((stag, content, etag)), |(s, _, e)| std::mem::discriminant(&s.name) == std::mem::discriminant(e)),", "R02-2"),
     ("C03", "unwrap-in-display", "info/src/lib.rs",
      "        write!(f, \"<!--{}-->\", self.comment.as_str())\n    }\n}\n\nimpl XmlComment {",
      "        write!(f, \"<!--{}-->\", self.comment.as_str().get(0..).unwrap())\n    }\n}\n\nimpl XmlComment {", "R03-1"),
@@ -46,7 +43,7 @@ M = [
     ("C04", "escape-always-double", "info/src/lib.rs",
      "    if value.contains(\"\\\"\") {\n        format!(\"'{}'\", value)", "    if value.contains(\"'\") {\n        format!(\"'{}'\", value)", "R04-2q"),
     ("C04", "comment-eq-ignores-text", "info/src/lib.rs",
-     "        self.comment == other.comment\n", "        self.comment.len() == other.comment.len()\n", None),
+     "        self.comment == other.comment\n", "        self.comment.len() == other.comment.len()\n", "R04-3"),
     ("C04", "pi-template-missing-space", "info/src/lib.rs",
      "            write!(f, \" {}?>\", content)", "            write!(f, \"{}?>\", content)", "R04-2"),
     ("C05", "swap-following-preceding", "xpath/src/eval/mod.rs",
@@ -92,7 +89,7 @@ M = [
     ("C09", "ge-node-swapped", "xpath/src/eval/mod.rs",
      "            model::Value::Node(nodes) => less_eq_node(b, nodes),\n            _ => Ok(f64::try_from(a)? >= f64::try_from(b)?),", "            model::Value::Node(nodes) => greater_eq_node(b, nodes),\n            _ => Ok(f64::try_from(a)? >= f64::try_from(b)?),", "R09-3"),
     ("C10", "no-implicit-xml", "info/src/lib.rs",
-     "                let implicity = XmlNamespace::xml(self.context());\n                if !items", "                let implicity = XmlNamespace::xml(self.context());\n                if false && !items", None),
+     "                {\n                    items.push(implicity);\n                }", "                {\n                    let _ = implicity;\n                }", "C10-3"),
     ("C10", "keep-empty-namespaces", "info/src/lib.rs",
      "        items.retain(|v| !v.borrow().namespace_name().is_empty());\n", "", "C10-3"),
     ("C11", "normalize-ws-loses-lf", "info/src/lib.rs",
@@ -122,7 +119,7 @@ M = [
      "        for child in self.namespace_attributes().iter() {\n            child.borrow().init_order_recursive();\n        }\n\n        for child in self.attributes_specified().iter() {\n            child.borrow().init_order_recursive();\n        }\n\n        for child in self.children.borrow().as_slice() {\n            child.init_order_recursive();\n        }",
      "        for child in self.children.borrow().as_slice() {\n            child.init_order_recursive();\n        }\n\n        for child in self.namespace_attributes().iter() {\n            child.borrow().init_order_recursive();\n        }\n\n        for child in self.attributes_specified().iter() {\n            child.borrow().init_order_recursive();\n        }", "C14-5"),
     ("C15", "comment-check-always-true", "info/src/lib.rs",
-     "        let (rest, _) = xml_parser::comment(new.as_str())?;\n        Ok(rest.is_empty())", "        let (rest, _) = xml_parser::comment(new.as_str())?;\n        Ok(rest.is_empty() || true)", None),
+     "        let (rest, _) = xml_parser::comment(new.as_str())?;\n        Ok(rest.is_empty())", "        let (_rest, _) = xml_parser::comment(new.as_str())?;\n        Ok(true)", "R15-1"),
     ("C15", "set-content-stores-argument", "info/src/lib.rs",
      "            self.content = tree.value.map(|v| v.to_string());\n            Ok(())", "            let _ = tree;\n            self.content = Some(content.to_string());\n            Ok(())", "R15-1"),
     ("C15", "insert-validates-fragment-only", "info/src/lib.rs",
